@@ -44,9 +44,12 @@ theorem sim {T : List Name} {files : Files} (hH : inH T files = true) :
     ∀ files entry kind data fuel, renderInline files entry kind data fuel = renderRuntime files entry kind data fuel
   Proved under the hypothesis `inH T files` for any tag set `T`:
     * every file is a well-formed template (else: finding C11-eager-syntax),
-    * no statically named include and no macro call inside an element whose tag has a match
-      template (tag in `T`) nor inside a match template body, every match template is written for
-      a tag in `T` (else: finding C11-match-range),
+    * inside an element whose tag has a match template (tag in `T`) and inside a match template
+      body: no macro call, and a statically named include only when what is inlined for it does
+      not depend on the window of match templates (`zoneTargetOk`: the target — or the fallback of
+      a missing target — has no element with a tag in `T`, no macro call, no `select`, no named
+      include of markup); every match template is written for a tag in `T` (else: findings
+      C11-match-range, C11-match-range-select),
     * statically named includes are relative and name the class of their target,
     * text templates make no macro calls (their pipeline has no match filter; else: finding
       C11-match-range-text).
@@ -69,7 +72,7 @@ theorem inline_eq_runtime_partial (T : List Name) (files : Files) (hH : inH T fi
     have h0 : StRel T files (St.init data) { St.init data with cache := c' } :=
       ⟨rfl, rfl, .nil, .nil, hc', rfl⟩
     have := simL (loadOK_of_inH hH) (textOK_of_inH hH) (sim hH fuel) hp (.ofKind kind) (.ofKind kind) _ _
-      (Coup.ofKind (loadRaw_text (textOK_of_inH hH) hraw) (fun hk => by subst hk; rfl)) h0
+      (Coup.ofKind (loadRaw_text (textOK_of_inH hH) hraw) (fun hk => by subst hk; exact .inl rfl)) h0
     revert this
     cases renderL .runtime files (render .runtime files fuel) (Rng.ofKind kind) body (St.init data) <;>
       cases renderL .inlineM files (render .inlineM files fuel) (Rng.ofKind kind) body' { St.init data with cache := c' } <;>
@@ -99,7 +102,7 @@ theorem renderOn_eq {T : List Name} {files : Files} (hH : inH T files = true) (f
     have h0 : StRel T files { St.init data with cache := [] } { St.init data with cache := c' } :=
       ⟨rfl, rfl, .nil, .nil, hc', rfl⟩
     have := simL (loadOK_of_inH hH) (textOK_of_inH hH) (sim hH fuel) hp (.ofKind kind) (.ofKind kind) _ _
-      (Coup.ofKind (loadRaw_text (textOK_of_inH hH) hraw) (fun hk => by subst hk; rfl)) h0
+      (Coup.ofKind (loadRaw_text (textOK_of_inH hH) hraw) (fun hk => by subst hk; exact .inl rfl)) h0
     revert this
     cases renderL .runtime files (render .runtime files fuel) (Rng.ofKind kind) body { St.init data with cache := [] } <;>
       cases renderL .inlineM files (render .inlineM files fuel) (Rng.ofKind kind) body' { St.init data with cache := c' } <;>
@@ -458,6 +461,25 @@ example : (loadInl exFiles nA .markup []).map (fun r => targetsL r.1) = .ok [nA]
 example : renderInline exFiles nA .markup exData 2 = .fuel ∧ renderRuntime exFiles nA .markup exData 2 = .fuel := by decide +kernel
 -- the code's inline mode (no markers) spends no fuel on inlined templates: it gets by with less
 example : renderInlineReal exFiles nA .markup exData 2 = renderRuntime exFiles nA .markup exData 9 := by decide +kernel
+
+/-- the layout pattern: a match template wraps the content of `<x>`, and inside `<x>` a leaf
+fragment (no matchable elements, no macro calls) and a text template are included by name — inside
+the hypothesis although the includes sit in a zone -/
+def nLeaf : Name := ['l', 'e', 'a', 'f', '.', 'h', 't', 'm', 'l']
+def exLayout : Files :=
+  [[(nA, ⟨.markup, some [.elem ['d'] [
+        .matchT ['x'] [.elem ['w'] [.select]],
+        .elem ['x'] [.text ['a'], .include (.static nLeaf) .markup false [] nA,
+                     .include (.static nT) .text false [] nA,
+                     .include (.static nNope) .markup true [.elem ['p'] [.text ['F']]] nA]]]⟩),
+    (nLeaf, ⟨.markup, some [.elem ['p'] [.text ['L'], .var ['s', '0']]]⟩),
+    (nT, ⟨.text, some [.text ['T']]⟩)]]
+
+example : inH (matchTags exLayout) exLayout = true := by decide +kernel
+example : renderInlineReal exLayout nA .markup exData 4 = renderRuntime exLayout nA .markup exData 4 ∧
+    renderRuntime exLayout nA .markup exData 4 =
+      .ok [.start ['d'], .start ['w'], .text ['a'], .start ['p'], .text ['L'], .text ['v'], .stop ['p'],
+           .text ['T'], .start ['p'], .text ['F'], .stop ['p'], .stop ['w'], .stop ['d']] := by decide +kernel
 end nonvacuous
 
 end Genshi.Props.C11
